@@ -2,12 +2,15 @@ package main
 
 import (
 	"context"
+	"crypto/tls"
 	"fmt"
+	"strings"
 	"time"
 
 	kmip "github.com/smira/go-kmip"
 
 	"kvharness/internal/rec"
+	"kvharness/internal/tlsm"
 )
 
 // c15DuringShutdown: "a connection that keeps completing requests in time is never cut off because of its age" - nor because
@@ -75,5 +78,65 @@ func c15DuringShutdown(r *Result) {
 		case <-time.After(3 * time.Second):
 		}
 		r.Stats["exchanges-during-shutdown-scenarios"]++
+	}
+}
+
+// c15HandshakeStall: "arms a fresh read deadline ... (and for the TLS handshake), so a peer that stalls ... is disconnected" - in
+// the handshake too: a peer connects to a TLS-serving Server with ReadTimeout T and says nothing, or sends the first bytes of
+// a record and stops. The server hangs up (closes the connection) between T/2 and 10 T after the peer connected; with
+// ReadTimeout zero it does not (control: still connected after 3 T).
+func c15HandshakeStall(r *Result) {
+	const T = 200 * time.Millisecond
+	ca := tlsm.NewCA("c15-hs-ca")
+	scfg := &tls.Config{Certificates: []tls.Certificate{tlsm.Leaf(ca, tlsm.LeafOpts{Host: "kmip.test"})}, ClientCAs: ca.Pool}
+	kmip.DefaultServerTLSConfig(scfg)
+	for _, rt := range []time.Duration{T, 0} {
+		for _, probe := range []string{"nothing", "the first six bytes of a record"} {
+			key := fmt.Sprintf("TLS server with ReadTimeout %v (WriteTimeout %v): a peer connects, sends %s and stalls", rt, rt, probe)
+			crumb("C15 " + key)
+			r.eval(key, true)
+			s := &kmip.Server{TLSConfig: scfg, ReadTimeout: rt, WriteTimeout: rt}
+			sc, cc := rec.Pipe()
+			rc := rec.NewConn(sc, 1)
+			l := rec.NewListener()
+			l.Push(rec.AcceptStep{Conn: tls.Server(rc, scfg)})
+			init := make(chan struct{})
+			ret := make(chan error, 1)
+			go func() { ret <- s.Serve(l, init) }()
+			<-init
+			t0 := time.Now()
+			if probe != "nothing" {
+				_, _ = cc.Write([]byte{0x16, 0x03, 0x01, 0x02, 0x00, 0x01})
+			}
+			obs := ""
+			limit := 10 * T
+			if rt == 0 {
+				limit = 3 * T
+			}
+			select {
+			case <-rc.Closed():
+				obs = fmt.Sprintf("closed after %v", time.Since(t0).Round(10*time.Millisecond))
+				if rt != 0 && time.Since(t0) < T/2 {
+					obs += " (too early)"
+				}
+			case <-time.After(limit):
+				obs = "still connected"
+			}
+			switch {
+			case rt != 0 && (obs == "still connected" || strings.HasSuffix(obs, "(too early)")):
+				r.find(Finding{Kind: "violation", What: "a peer stalling in the TLS handshake was not disconnected when the read deadline armed for the handshake passed", Input: key, Expect: fmt.Sprintf("connection closed by the server between %v and %v", T/2, 10*T), Actual: obs})
+			case rt == 0 && obs != "still connected":
+				r.find(Finding{Kind: "violation", What: "with zero timeouts a peer idling in the TLS handshake was cut off", Input: key, Expect: "still connected after " + (3 * T).String(), Actual: obs})
+			}
+			cc.Close()
+			ctx, cancel := context.WithTimeout(context.Background(), 5*time.Second)
+			_ = s.Shutdown(ctx)
+			cancel()
+			select {
+			case <-ret:
+			case <-time.After(3 * time.Second):
+			}
+			r.Stats["handshake-stall-scenarios"]++
+		}
 	}
 }
